@@ -131,3 +131,10 @@ def d6(cx: Cx, ob: Ob) -> None:
     check_split(cx, ob)
     check_parse_curie_delimiter(cx, ob)
     check_parse_curie_flow(cx, ob)
+
+
+@obligation("C06-X12", "def-use lints over the files this property is anchored in (api.py): no one-shot iterator (generator expression, map, filter, zip, iter, reversed, enumerate, generator call) bound to a name is consumed twice or inside a loop that starts after its creation; no mutable default argument is mutated, stored or returned", floor=1)
+def x12(cx: Cx, ob: Ob) -> None:
+    from ..rules import package_lints
+
+    package_lints(cx, ob, {'api.py'})
